@@ -89,6 +89,9 @@ class LogAcct(object):
         self.bounds = []              # len(stream) at each rotation of the main file
         self.renames = []             # (k, size of source or None)
         self.wrote_total = 0          # records for which the write call was made, ever
+        self.fault = None             # countdown: this os.rename call on the log's files raises OSError
+        self.pending_drop = False     # a rename chain has overwritten the oldest copy and not (yet) moved the main file
+        self.slack = 0                # chains that ended like that: one retained generation less each
 
     def settle(self):
         if self.pending_flush is not None:
@@ -102,6 +105,8 @@ class LogAcct(object):
         self.pending_flush = None
         self.rot_start = 0
         self.bounds = []
+        self.pending_drop = False
+        self.slack = 0
 
 
 class Recorder(object):
@@ -139,8 +144,8 @@ class Recorder(object):
         return ";".join(out)
 
     def snap(self):
-        self.snaps.append(tuple((self.read_paths(a.paths), tuple(a.stream), a.nf, a.rot_start, tuple(a.bounds))
-                                for a in self.logs))
+        self.snaps.append(tuple((self.read_paths(a.paths), tuple(a.stream), a.nf, a.rot_start, tuple(a.bounds),
+                                 a.slack + (1 if a.pending_drop else 0)) for a in self.logs))
 
     def event(self, kind, arg=None, path=None):
         if self.muted:
@@ -151,7 +156,8 @@ class Recorder(object):
             os._exit(0)
         # the steps the model counts: open / write / flush(+fsync) / close / rename; the close of a trial open
         # belongs to the open
-        step = kind in ("open", "write", "flush", "rename") or (kind == "close" and not (arg or "").startswith("r"))
+        step = kind in ("open", "write", "flush", "rename", "renamefail") or \
+            (kind == "close" and not (arg or "").startswith("r"))
         if step and self.die_at is not None:
             if self.mc == self.die_at:
                 self.died_at.append((self.n, tuple(self.read_paths(a.paths) for a in self.logs)))
@@ -169,6 +175,9 @@ class Recorder(object):
         if i is None:
             return
         a = self.logs[i]
+        if a.pending_drop and kind not in ("rename", "renamefail"):
+            a.pending_drop = False        # the chain is over and the main file was not rotated
+            a.slack += 1
         if kind == "write":
             for line in arg.split("\n"):
                 parts = line.split("\t")
@@ -184,6 +193,9 @@ class Recorder(object):
             if k == 0 and size is not None:
                 a.rot_start = len(a.stream)
                 a.bounds.append(len(a.stream))
+                a.pending_drop = False
+            elif k == len(a.paths) - 2 and size is not None:
+                a.pending_drop = True
 
     def finish(self):
         for a in self.logs:
@@ -351,7 +363,10 @@ class CHECK(core.Check):
             "ends after STOP, by a kill between controls, or by a kill INSIDE a control after g of its file-system steps - "
             "op `die <ctl> <g>`: between the renames of a rotation, between create and header, between header write and "
             "flush, between the trial opens of a reopen, ... - followed by a restart on the files left); every g for "
-            "START / RUN-with-rotation / STOP on fixed streams; a small full grid of configurations over fixed "
+            "START / RUN-with-rotation / STOP on fixed streams; fault injection - op `fault <i> <n>`: the n-th os.rename call "
+            "on log i's files raises OSError(EBUSY) once without moving anything - at every position of a rotation's "
+            "rename chain and beyond it, for every log, followed by more rotations, a STOP and a second life, and at "
+            "random places of a quarter of the random histories with keep > 0; a small full grid of configurations over fixed "
             "streams; every primitive of every run is a crash point (read-back), and sampled crash points (all points for "
             "selected cases) are produced by killing a forked child; non-trivial = at least two records written; distinct "
             "by case content")
@@ -379,10 +394,19 @@ class CHECK(core.Check):
                "within the contiguous retained suffix is lost; the oracle accounts for it); the global order of the "
                "primitives of a multi-log control (loop by loop, log by log) is in the driver, the theorems hold for "
                "every vector of per-log cut points; not covered: a different keep or directory layout in a later "
-               "life, failing renames / opens (OSError branches are in the model but proved unreachable), binary logs; "
+               "life, failing opens (IOError branches), binary logs; failing renames: C23_failed_rename_keeps_invariant "
+               "proves the invariant P at every crash point of a rename chain for any pattern of existing copies and any "
+               "failing os.rename call (and that a failed chain leaves the main file as it was); the history theorems are "
+               "stated for runs without injected faults (proto rejects Op.fault), whole histories with faults are covered "
+               "by the correspondence and the oracle only; fault + death inside the same history is not generated; "
                "loggers with several logs: C23_logs_lockstep shows every log of a multi-log logger is where the single-log "
                "logger would be, so all theorems hold per log and per-log crash point (C23_multi_*); one log raising an "
                "exception in the middle of a Logger loop is not modelled",
+               "observation: after one failed os.rename the hole it leaves makes every later rename chain of the same process "
+               "fail at once (rename of a missing source), so rotation does not resume until the next process start "
+               "refills the hole - the main file grows past fileSize; a chain that fails after it overwrote the oldest "
+               "copy has dropped one retained generation without rotating (the oracle allows for it); nothing retained is "
+               "overwritten in the middle and no record that is still retained is lost",
                "observation (not a violation of the property as stated): with keep and reuse a STOP logs, lets the cycle "
                "timer rotate, and then rotates once more; with fileSize 0 the second rotation moves a header-only file "
                "into the copies, so with keep=1 every record of the session has fallen off right after STOP"]
@@ -436,6 +460,9 @@ class CHECK(core.Check):
                 i, k = (int(w[1]), int(w[2])) if len(w) == 3 else (0, int(w[1]))
                 if i < len(pls):
                     pls[i].put(k)
+            elif w[0] == "fault":
+                if int(w[1]) < len(pls):
+                    out.append(o)
             elif w[0] == "reboot":
                 for pl in pls:
                     pl.new_life()
@@ -488,6 +515,14 @@ class CHECK(core.Check):
             return p
 
         def rename(a, b):
+            i = rec.which(a) if not rec.muted else None
+            if i is not None and rec.logs[i].fault is not None:
+                if rec.logs[i].fault == 0:            # the injected fault: this call raises, nothing is moved
+                    rec.logs[i].fault = None
+                    rec.event("renamefail" if os.path.exists(a) else "rename", None, a)
+                    import errno
+                    raise OSError(errno.EBUSY, "Device or resource busy (injected)", a)
+                rec.logs[i].fault -= 1
             rec.event("rename", None, a)
             return real_rename(a, b)
 
@@ -574,6 +609,7 @@ class CHECK(core.Check):
                 if done and done[-1] >= 1 and c["reuse"]:
                     idx = len(a.bounds) - done[-1]
                     a.bounds.insert(max(idx, 0), a.bounds[idx] if idx >= 0 else 0)
+                a.pending_drop = False
             for p in rec.files:
                 f = p._f
                 if not f.closed:
@@ -613,6 +649,9 @@ class CHECK(core.Check):
                         share.update(value=vals[0])
                     elif rule == "change" and vals:
                         share.change(value=vals[0])
+                elif w[0] == "fault":
+                    if int(w[1]) < nlogs:
+                        rec.logs[int(w[1])].fault = int(w[2])
                 elif w[0] == "reboot":
                     end_life()
                     for pl in pls:
@@ -765,16 +804,16 @@ class CHECK(core.Check):
                 if k == 0 and size is not None and fsize and size < fsize:
                     return [("size", "log %d: rotated a main file of %d bytes, threshold %d" % (li, size, fsize))]
         for idx, snap in enumerate(rec.snaps):
-            for li, (st, stream, nf, rot, bounds) in enumerate(snap):
+            for li, (st, stream, nf, rot, bounds, slack) in enumerate(snap):
                 if st == "":
                     continue
-                f = self.check_state(idx, li, st, stream, nf, rot, bounds, keep)
+                f = self.check_state(idx, li, st, stream, nf, rot, bounds, keep, slack)
                 if f:
                     return [f]
         return []
 
     @staticmethod
-    def check_state(idx, li, st, stream, nf, rot, bounds, keep):
+    def check_state(idx, li, st, stream, nf, rot, bounds, keep, slack=0):
         pos = {n: i for i, n in enumerate(stream)}
         files = parse_state(st)
         seq = []
@@ -804,7 +843,8 @@ class CHECK(core.Check):
         # the flushed records from the start of one of the last keep (+1 while a rotation is under way) stretches
         m = len(bounds)
         starts = set()
-        for back in (keep, keep - 1):
+        # (a rename chain that failed after it had overwritten the oldest copy costs one more generation: slack)
+        for back in range(keep, keep - 2 - slack, -1):
             if back < 0:
                 continue
             starts.add(bounds[m - back - 1] if m - back - 1 >= 0 else 0)
@@ -845,9 +885,13 @@ class CHECK(core.Check):
                 if rng.random() < 0.6:
                     ops.append("put %d %d" % (i, rng.choice([1, 1, 1, 2, 3])))
 
+        faulty = keep > 0 and rng.random() < 0.25       # os.rename fails once or twice somewhere in this history
+
         def ctl(c):
             """the control, or (now and then) the process dying inside it after some of its file-system steps"""
-            if rng.random() < 0.07:
+            if faulty and rng.random() < 0.2:
+                ops.append("fault %d %d" % (rng.randrange(nlogs), rng.randrange(2 * keep + 1)))
+            if not faulty and rng.random() < 0.07:
                 ops.append("die %s %d" % (c, rng.randrange(6 + 12 * nlogs)))
                 return True
             ops.append("ctl " + c)
@@ -930,6 +974,20 @@ class CHECK(core.Check):
                        "kills": "all" if (sel and tier == "thorough" and rules in (["always"], ["always", "deck"]))
                        else ([7, 12, 25, 40] if (sel and rules == ["always", "deck"]) else [])}
 
+        # os.rename raises OSError once, at every position of a rotation's rename chain (and beyond it: the next
+        # rotation), for every log; then more rotations, a STOP (which rotates again), a second life
+        for rules in ([["always"], ["always", "deck"]] if tier == "quick" else
+                      [["always"], ["deck"], ["always", "deck"], ["streak", "always", "update"]]):
+            n = len(rules)
+            p = puts(n)
+            for keep, fsize in ([(2, 0), (1, 0)] if tier == "quick" else [(1, 0), (2, 0), (3, 0), (2, 60)]):
+                cfgf = {"keep": keep, "cycle": 8, "fsize": fsize, "flush": 8, "reuse": True, "rules": rules}
+                for li in range(n):
+                    for k in range(keep + 2):
+                        yield {"cfg": cfgf, "kills": [],
+                               "ops": p + ["ctl start", "adv 8"] + p + ["ctl run", "adv 8", "fault %d %d" % (li, k)] + p +
+                                      ["ctl run", "adv 8"] + p + ["ctl run", "adv 8"] + p + ["ctl run", "ctl stop", "reboot"] +
+                                      p + ["ctl start", "adv 8"] + p + ["ctl run", "adv 8"] + p + ["ctl run", "ctl stop"]}
         # the process dies inside a control after g of its file-system steps, for every g: inside a run that flushes
         # and rotates (between the renames, between create and header, between header and reopen), inside the START
         # of a second life (reopen, trial opens, header), inside a STOP (flush, rotation, close); then a new life
